@@ -146,10 +146,9 @@ pub fn run(ctx: &Ctx) -> Outcome {
                         }
                     } else if deep || rotating {
                         eval_one(&ls, &known, rep, code, n, &v.text, v.variant, 0, rng);
-                        if deep {
-                            let cid = 1 + rng.usize(N_CONTEXTS - 1);
-                            eval_one(&ls, &known, rep, code, n, &v.text, v.variant, cid, rng);
-                        }
+                        // and in one sentence context (capitalised, punctuated ...): variants meet contexts too
+                        let cid = if deep { 1 + rng.usize(N_CONTEXTS - 1) } else { 1 + (idx / 2 + vi + ctx.seed as usize) % (N_CONTEXTS - 1) };
+                        eval_one(&ls, &known, rep, code, n, &v.text, v.variant, cid, rng);
                     }
                 }
                 // evidence: which words and digit states the interpreter saw (sampled)
